@@ -1,93 +1,10 @@
-(* TaggedSrcProps.v — the properties C01/C04/C05/C14/C15 of the tagged family
-   restated about the REGENERATED functions src_* (coq/gen/Src_tagged.v), by
-   rewriting with the src_*_is_model lemmas in the theorems about the model. *)
+(* TaggedSrcProps.v — C01 and C15 restated about the REGENERATED functions src_*
+   (coq/gen/Src_tagged.v): these need the encoder and the decoder lemmas together. *)
 Require Import VV.Base VV.BaseProofs VV.Tagged VV.TaggedProofs VV.TaggedSpec VV.TaggedSpecProofs
-  VV.TaggedFixed VV.CSem VV.CSemProofs VV.TaggedSrcLen VV.TaggedSrcPut VV.TaggedSrcGet.
+  VV.TaggedFixed VV.CSem VV.CSemProofs VV.TaggedSrcLen VV.TaggedSrcPut VV.TaggedSrcGet VV.TaggedSrcPropsPut.
 Require Import VVgen.Src_tagged.
 From Coq Require Import Lia ZifyBool ZifyN ZifyNat.
 Local Open Scope Z_scope.
-
-Lemma bytes_ok_tagged_put64 x : bytes_ok (tagged_put64 x).
-Proof.
-  unfold tagged_put64, write32. cbv zeta.
-  kill_ifs; unfold bytes_ok; repeat (apply Forall_cons || apply Forall_nil || apply Forall_app; try split);
-    try apply u8_lt; lia.
-Qed.
-
-Lemma firstn_store_0 buf bs : (length bs <= length buf)%nat -> firstn (length bs) (store buf 0 bs) = bs.
-Proof.
-  intro H. unfold store. cbn [firstn app]. rewrite firstn_app, Nat.sub_diag, firstn_all. cbn [firstn].
-  apply app_nil_r.
-Qed.
-
-(* what src_varintTaggedPut64 returns, with the written prefix made explicit *)
-Lemma src_put64_ok buf x : 0 <= x < 18446744073709551616 -> (9 <= length buf)%nat ->
-  exists w out, src_varintTaggedPut64 buf x = COk (w, out) /\
-    w = Z.of_N (tagged_len (Z.to_N x)) /\
-    firstn (Z.to_nat w) out = tagged_put64 (Z.to_N x) /\
-    skipn (Z.to_nat w) out = skipn (Z.to_nat w) buf.
-Proof.
-  intros Hx Hb. pose proof (tagged_len_range (Z.to_N x)) as Hr.
-  pose proof (tagged_put_length_nat (Z.to_N x)) as Hl.
-  eexists. eexists. split; [apply src_varintTaggedPut64_is_model; [exact Hx|lia]|].
-  split; [reflexivity|].
-  replace (Z.to_nat (Z.of_N (tagged_len (Z.to_N x)))) with (length (tagged_put64 (Z.to_N x))) by lia. split.
-  - apply firstn_store_0. lia.
-  - apply store_0_skipn. lia.
-Qed.
-
-(* ---------- C05 ---------- *)
-
-Lemma src_tagged_order a b bufa bufb :
-  0 <= a < 18446744073709551616 -> 0 <= b < 18446744073709551616 ->
-  (9 <= length bufa)%nat -> (9 <= length bufb)%nat ->
-  exists wa oa wb ob,
-    src_varintTaggedPut64 bufa a = COk (wa, oa) /\ src_varintTaggedPut64 bufb b = COk (wb, ob) /\
-    lex (firstn (Z.to_nat wa) oa) (firstn (Z.to_nat wb) ob) = (a ?= b).
-Proof.
-  intros Ha Hb La Lb.
-  destruct (src_put64_ok bufa a Ha La) as (wa & oa & Ea & _ & Fa & _).
-  destruct (src_put64_ok bufb b Hb Lb) as (wb & ob & Eb & _ & Fb & _).
-  exists wa, oa, wb, ob. split; [exact Ea|]. split; [exact Eb|].
-  rewrite Fa, Fb, tagged_order by lia. rewrite <- Z2N.inj_compare by lia. reflexivity.
-Qed.
-
-Lemma src_tagged_injective a b bufa bufb wa oa wb ob :
-  0 <= a < 18446744073709551616 -> 0 <= b < 18446744073709551616 ->
-  (9 <= length bufa)%nat -> (9 <= length bufb)%nat ->
-  src_varintTaggedPut64 bufa a = COk (wa, oa) -> src_varintTaggedPut64 bufb b = COk (wb, ob) ->
-  firstn (Z.to_nat wa) oa = firstn (Z.to_nat wb) ob -> a = b.
-Proof.
-  intros Ha Hb La Lb Ea Eb H.
-  destruct (src_put64_ok bufa a Ha La) as (wa' & oa' & Ea' & _ & Fa & _).
-  destruct (src_put64_ok bufb b Hb Lb) as (wb' & ob' & Eb' & _ & Fb & _).
-  rewrite Ea in Ea'. injection Ea' as <- <-. rewrite Eb in Eb'. injection Eb' as <- <-.
-  rewrite Fa, Fb in H. apply tagged_injective in H; lia.
-Qed.
-
-Lemma src_tagged_prefix_free a b bufa bufb wa oa wb ob :
-  0 <= a < 18446744073709551616 -> 0 <= b < 18446744073709551616 ->
-  (9 <= length bufa)%nat -> (9 <= length bufb)%nat ->
-  src_varintTaggedPut64 bufa a = COk (wa, oa) -> src_varintTaggedPut64 bufb b = COk (wb, ob) ->
-  (exists t, firstn (Z.to_nat wb) ob = firstn (Z.to_nat wa) oa ++ t) -> a = b.
-Proof.
-  intros Ha Hb La Lb Ea Eb H.
-  destruct (src_put64_ok bufa a Ha La) as (wa' & oa' & Ea' & _ & Fa & _).
-  destruct (src_put64_ok bufb b Hb Lb) as (wb' & ob' & Eb' & _ & Fb & _).
-  rewrite Ea in Ea'. injection Ea' as <- <-. rewrite Eb in Eb'. injection Eb' as <- <-.
-  rewrite Fa, Fb in H. apply tagged_prefix_free in H; lia.
-Qed.
-
-(* ---------- C04 ---------- *)
-
-Lemma src_tagged_put_is_spec buf x : 0 <= x < 18446744073709551616 -> (9 <= length buf)%nat ->
-  exists w out, src_varintTaggedPut64 buf x = COk (w, out) /\
-    firstn (Z.to_nat w) out = tagged_spec (Z.to_N x) /\
-    skipn (Z.to_nat w) out = skipn (Z.to_nat w) buf.
-Proof.
-  intros Hx Hb. destruct (src_put64_ok buf x Hx Hb) as (w & out & E & _ & F & S).
-  exists w, out. split; [exact E|]. split; [|exact S]. rewrite F. apply tagged_put_is_spec. lia.
-Qed.
 
 (* ---------- C01 ---------- *)
 
@@ -115,33 +32,6 @@ Proof.
       destruct (tagged_len (Z.to_N x) =? 0)%N eqn:Z0; [lia|]. rewrite W, Z2N.id by lia. reflexivity.
     + rewrite tagged_getlen_put by exact X. rewrite app_length.
       pose proof (tagged_put_length_nat (Z.to_N x)). lia.
-Qed.
-
-(* ---------- C14 ---------- *)
-
-(* handing over only the first n bytes changes nothing: with checked loads this
-   says that no index >= n is loaded (such a load would be COob on the cut list) *)
-Lemma src_tagged_get_bounded z n r :
-  bytes_ok z -> 0 <= n <= 2147483647 -> n <= Z.of_nat (length z) ->
-  src_varintTaggedGet (firstn (Z.to_nat n) z) n r = src_varintTaggedGet z n r /\
-  exists w v, src_varintTaggedGet z n r = COk (w, v).
-Proof.
-  intros Hz Hn Hl.
-  assert (Hz' : bytes_ok (firstn (Z.to_nat n) z)).
-  { unfold bytes_ok in *. rewrite <- (firstn_skipn (Z.to_nat n) z) in Hz. apply Forall_app in Hz. apply Hz. }
-  rewrite (src_varintTaggedGet_is_model z) by (try assumption; lia).
-  rewrite (src_varintTaggedGet_is_model (firstn (Z.to_nat n) z)); [|exact Hz'|lia|rewrite firstn_length; lia].
-  split; [|eexists; eexists; reflexivity].
-  unfold get_result. rewrite (tagged_get_noninterference (firstn (Z.to_nat n) z) z n); [reflexivity|].
-  rewrite firstn_firstn, Nat.min_id. reflexivity.
-Qed.
-
-Lemma src_tagged_get_short z n r :
-  bytes_ok z -> -2147483648 <= n <= 2147483647 -> n <= Z.of_nat (length z) ->
-  n < Z.of_N (tagged_getlen z) -> src_varintTaggedGet z n r = COk (0, r).
-Proof.
-  intros Hz Hn Hl Hs. rewrite src_varintTaggedGet_is_model by (try assumption; lia).
-  unfold get_result. rewrite tagged_get_short by (try apply byte_at_lt; assumption). reflexivity.
 Qed.
 
 (* ---------- C15 ---------- *)
